@@ -248,6 +248,7 @@ pub fn subs() -> Vec<Sub<'static>> {
         Sub { name: "numbers", oracle: &oracle, minimise_bytes: true },
         Sub { name: "docs", oracle: &oracle, minimise_bytes: true },
         Sub { name: "mutations", oracle: &oracle, minimise_bytes: true },
+        Sub { name: "long-numbers", oracle: &oracle, minimise_bytes: true },
     ]
 }
 
@@ -279,6 +280,50 @@ pub fn run(ctx: &Ctx) {
         });
     });
     ctx.mark_exhaustive(format!("all strings of length <= {nl} over {{-019.eE+}} as number candidates in 5 contexts"));
+
+    // (b2) long number literals (integer part 1..=130 digits, fraction 0..=66 digits) with every
+    // tail of a small damage set, so that each scanner state is entered at every position of a
+    // 32/64-byte block
+    let s = sub("long-numbers");
+    let max_int = ctx.n(130, 200);
+    ctx.sweep(&s, true, &|shard, n, emit| {
+        const TAILS: &[&str] = &["", ".5", ".5.5", ".5e5", ".5e5e5", ".5e5.5", "e5", "e5.5", "E+5", "E+5+", "e", "e+", "e-", ".", "..5", ".e5", ".5e", ".5E-", "-", "+", ".5-", ".5+1", "e5-", "e0x", ".5x", "x", ".5.", "e5e", "E5E5", ".-5", ".+5", "e.5", ".5ee5", "e--5", "e+-5"];
+        let fracs: &[usize] = &[0, 1, 2, 15, 16, 17, 29, 30, 31, 32, 33, 34, 62, 63, 64, 65, 66];
+        let mut k = 0usize;
+        for int_len in 1..=max_int {
+            for &fl in fracs {
+                k += 1;
+                if k % n != shard {
+                    continue;
+                }
+                for neg in [false, true] {
+                    let mut num = String::new();
+                    if neg {
+                        num.push('-');
+                    }
+                    for i in 0..int_len {
+                        num.push((b'1' + (i % 9) as u8) as char);
+                    }
+                    if fl > 0 {
+                        num.push('.');
+                        for i in 0..fl {
+                            num.push((b'0' + (i % 10) as u8) as char);
+                        }
+                    }
+                    for t in TAILS {
+                        if fl > 0 && t.starts_with('.') && t.len() > 4 {
+                            continue;
+                        }
+                        let c = format!("{num}{t}");
+                        let c = c.as_bytes();
+                        if !(emit(c) && emit(&wrap(b"[", c, b",1]")) && emit(&wrap(b"{\"k\":", c, b",\"j\":\"0123456789012345678901234567890123456789\"}"))) {
+                            return;
+                        }
+                    }
+                }
+            }
+        }
+    });
 
     // (c) generated documents and a random mutation of each
     let s = sub("docs");
